@@ -282,7 +282,10 @@ Fixpoint bp_scan (stop : token -> bool) (cnt i : nat) : nat :=
   end.
 
 Section Handlers.
-Variable outer : nat -> presult (list bp_tree).     (* parseOuterTemplate at lower fuel *)
+Variable outer : nat -> presult (list bp_tree).     (* parseOuterTemplate at lower fuel, same open blocks *)
+(* parseOuterTemplate for the body of a block of the given name: None when a block of that name is
+   already open (Parser.openBlocks), otherwise the parser with the name pushed *)
+Variable outer_blk : bytes -> option (nat -> presult (list bp_tree)).
 
 (* ---- parse_if.go: the elseif / else / endif loop *)
 Fixpoint bp_if_loop (cnt i : nat) (has_else : bool) (bodies : list (list bp_tree)) (els : option (list bp_tree))
@@ -422,8 +425,11 @@ Definition bp_parse_block (i : nat) : presult bp_tree :=
     match tok_at toks i with
     | Some nm =>
       if k_name (t_kind nm) then
+        match outer_blk (t_val nm) with
+        | None => PErr                   (* nested in a block of the same name *)
+        | Some outer_in =>
         bp_expect k_block_end (S i) (fun i2 =>
-          bp_bind (outer i2) (fun j body =>
+          bp_bind (outer_in i2) (fun j body =>
             match tok_at toks j with
             | Some t =>
               if k_block_start (t_kind t) then
@@ -448,6 +454,7 @@ Definition bp_parse_block (i : nat) : presult bp_tree :=
               else PErr
             | None => PErr
             end))
+        end
       else PErr
     | None => PErr
     end.
@@ -829,7 +836,7 @@ End Handlers.
 
 (* ---- parser.go parseOuterTemplate; one unit of fuel per loop iteration; the handlers and the
         loops inside them run on the remaining fuel *)
-Fixpoint bp_outer (fuel : nat) (i : nat) : presult (list bp_tree) :=
+Fixpoint bp_outer (fuel : nat) (opn : list bytes) (i : nat) : presult (list bp_tree) :=
   match fuel with
   | O => PFuel
   | S f =>
@@ -838,11 +845,11 @@ Fixpoint bp_outer (fuel : nat) (i : nat) : presult (list bp_tree) :=
     | Some t =>
       match t_kind t with
       | KEof => POk i []
-      | KText => bp_cons BTText (bp_outer f (S i))
+      | KText => bp_cons BTText (bp_outer f opn (S i))
       | KVarStart | KVarStartTrim =>
         match skip toks (S i) with
         | None => PErr
-        | Some j => bp_expect k_var_end j (fun j1 => bp_cons BTPrint (bp_outer f j1))
+        | Some j => bp_expect k_var_end j (fun j1 => bp_cons BTPrint (bp_outer f opn j1))
         end
       | KBlockStart | KBlockStartTrim =>
         match tok_at toks (S i) with
@@ -852,7 +859,11 @@ Fixpoint bp_outer (fuel : nat) (i : nat) : presult (list bp_tree) :=
             if bp_is_end_tag (t_val nm) then POk i []                 (* tokenIndex -= 2; return *)
             else match bp_dispatch (t_val nm) with
                  | None => PErr
-                 | Some h => bp_bind (bp_run (bp_outer f) h f (S (S i))) (fun j nd => bp_cons nd (bp_outer f j))
+                 | Some h =>
+                   bp_bind (bp_run (bp_outer f opn)
+                              (fun name => if existsb (bytes_eqb name) opn then None else Some (bp_outer f (name :: opn)))
+                              h f (S (S i)))
+                           (fun j nd => bp_cons nd (bp_outer f opn j))
                  end
           else PErr
         end
@@ -860,20 +871,20 @@ Fixpoint bp_outer (fuel : nat) (i : nat) : presult (list bp_tree) :=
         let j := bp_scan (fun u => k_comment_end (t_kind u)) (length toks) (S i) in
         match tok_at toks j with
         | None => PErr
-        | Some _ => bp_outer f (S j)
+        | Some _ => bp_outer f opn (S j)
         end
       | KVarEndTrim | KBlockEndTrim => PErr
       | KName =>
         (* consecutive NAME tokens of the same line become one text node; a single one otherwise *)
         let j := bp_scan (fun u => negb (k_name (t_kind u) && Nat.eqb (t_line u) (t_line t))) (length toks) (S i) in
-        bp_cons BTText (bp_outer f j)
-      | KPunct | KOperator | KString | KNumber => bp_cons BTText (bp_outer f (S i))
+        bp_cons BTText (bp_outer f opn j)
+      | KPunct | KOperator | KString | KNumber => bp_cons BTText (bp_outer f opn (S i))
       | KVarEnd | KBlockEnd | KCommentEnd => PErr
       end
     end
   end.
 
-Definition bp_parse : presult (list bp_tree) := bp_outer (S (length toks)) 0.
+Definition bp_parse : presult (list bp_tree) := bp_outer (S (length toks)) [] 0.
 End BlockParser.
 
 (* ------------------------------------------------------------------ a concrete stand-in for parseExpression *)
